@@ -24,7 +24,7 @@ type World map[string]string
 var Baseline = World{
 	"qsig": "ok", "ak": "ok", "mut": "none", "bind": "ok", "qeSigner": "leaf", "authLen": "n32", "extra": "none",
 	"leafPki": "A", "interPki": "A", "rootPki": "A", "pool": "A", "leafRole": "pck", "nBlocks": "n3", "trailer": "none",
-	"pemType": "cert", "interCN": "platform", "leafId": "l1", "serials": "std", "sigShape": "any", "msgWide": "none", "sgxOrder": "canon", "sgxValues": "random", "crlShape": "std", "leafExtCritical": "no", "interSlot": "inter", "rotVia": "pool", "sharedSigner": "distinct", "src": "gen",
+	"pemType": "cert", "interCN": "platform", "leafId": "l1", "serials": "std", "sigShape": "any", "msgWide": "none", "sgxOrder": "canon", "sgxValues": "random", "crlShape": "std", "crlChain": "distinct", "leafExtCritical": "no", "interSlot": "inter", "rotVia": "pool", "sharedSigner": "distinct", "src": "gen",
 	"tcbSigner": "ok", "tcbOver": "member", "tcbAlter": "none", "tcbExtra": "none", "tcbHdr": "ok", "tcbMeta": "ok",
 	"qeSignerDoc": "ok", "qeOver": "member", "qeAlter": "none", "qeExtra": "none", "qeHdr": "ok", "qeMeta": "ok",
 	"tcbContent": "ok", "modBranch": "none", "qeContent": "ok",
@@ -407,8 +407,18 @@ func Build(w World, p Params) *Concrete {
 	}
 	c.Leaf = leaf
 
-	embInter := Reissue(pki[w.Get("interPki")].Inter, pki[w.Get("interPki")].Root.Cert, pki[w.Get("interPki")].Root.Key, win["inter"].nb, win["inter"].na, nil)
-	embRoot := Reissue(pki[w.Get("rootPki")].Root, nil, pki[w.Get("rootPki")].Root.Key, win["root"].nb, win["root"].na, nil)
+	// crlChain=shared: the PCK CRL is served with the very certificates the quote carries as its issuer chain (as Intel does): one
+	// certificate is then two artefacts, judged at two clocks; its validity window is the one the time dimension names
+	crlShared := w.Get("crlChain") == "shared" && w.Get("interPki") == w.Get("leafPki") && w.Get("rootPki") == w.Get("leafPki") && w.Get("interSlot") == "inter"
+	iw, rw := win["inter"], win["root"]
+	if crlShared && strings.HasPrefix(w.Get("time"), "pckCrlSigner_") {
+		iw = win["pckCrlSigner"]
+	}
+	if crlShared && strings.HasPrefix(w.Get("time"), "pckCrlRoot_") {
+		rw = win["pckCrlRoot"]
+	}
+	embInter := Reissue(pki[w.Get("interPki")].Inter, pki[w.Get("interPki")].Root.Cert, pki[w.Get("interPki")].Root.Key, iw.nb, iw.na, nil)
+	embRoot := Reissue(pki[w.Get("rootPki")].Root, nil, pki[w.Get("rootPki")].Root.Key, rw.nb, rw.na, nil)
 	slotInter := embInter // what the second PEM block carries
 	switch w.Get("interSlot") {
 	case "inter":
@@ -1207,6 +1217,9 @@ func Build(w World, p Params) *Concrete {
 	c.PckCrlDER, c.RootCrlDER = pckCrl, rootCrl
 	crlSignerCert := Reissue(H.Inter, H.Root.Cert, H.Root.Key, win["pckCrlSigner"].nb, win["pckCrlSigner"].na, nil)
 	crlRootCert := hdrRoot("pckCrlRoot")
+	if crlShared {
+		crlSignerCert, crlRootCert = embInter, embRoot
+	}
 	pckHdr := map[string][]string{HdrPckCrl: {IssuerChainHeader(crlSignerCert.DER, crlRootCert.DER)}}
 	if w.Get("pckCrlSigner") == "foreignWithHeader" {
 		// look-alike "Intel SGX PCK Platform CA" certificate for the foreign key, self-issued under the intermediate's names
